@@ -838,18 +838,26 @@ pub async fn large_exchange() {
     // the same exchange with one fault in it: the receiving node's storage refuses the first repair write, or the sending
     // node's storage refuses the read behind the first fetch.  The exchange must not count as done: the node's poller
     // (same keyspace tracker, further rounds) repairs later.  Each case on a rig of its own, all at once.
-    let cases: Vec<(&str, u64)> = vec![("write", 1), ("write", 2), ("write", 7), ("read", 1), ("read", 2), ("read", 7)];
+    // "slow" / "slow-lands": the receiving node's storage sits on the first repair write for longer than the progress watcher's
+    // patience (KEYSPACE_SYNC_TIMEOUT, 5 s real time) without reporting progress, so that begin_keyspace_sync gives the
+    // exchange up and leaves the modification half running (Poller.tla: Sync(k, "timeout")); the write that was left to
+    // run is then refused (LateDrop) or gets through (LateLand).  An exchange given up must not count as done either.
+    let cases: Vec<(&str, u64)> = vec![("write", 1), ("write", 2), ("write", 7), ("read", 1), ("read", 2), ("read", 7), ("slow", 2), ("slow-lands", 3)];
     let results = futures::future::join_all(cases.iter().map(|(kind, n)| faulty_exchange(kind, *n))).await;
-    let mut consumed = 0u64;
+    let (mut consumed, mut slow_given_up) = (0u64, 0u64);
     for ((kind, n), r) in cases.iter().zip(results) {
         sum.evaluations += 1;
         match r {
+            Ok(true) if kind.starts_with("slow") => slow_given_up += 1,
+            Ok(false) if kind.starts_with("slow") => {},
             Ok(true) => consumed += 1,
             Ok(false) => {},
             Err(why) => sum.violation(json!({"property": "C05", "size": n, "fault": kind, "why": [why]})),
         }
     }
-    sum.set("faulty_exchanges", cases.len() as u64);
+    sum.set("faulty_exchanges", cases.iter().filter(|c| !c.0.starts_with("slow")).count() as u64);
+    sum.set("slow_exchanges", cases.iter().filter(|c| c.0.starts_with("slow")).count() as u64);
+    sum.set("slow_exchanges_given_up_by_the_watcher", slow_given_up);
     sum.set("faults_run_into", consumed);
     sum.set("sizes", json!(sizes));
     sum.set("removal_sizes", json!(removal_sizes));
@@ -869,18 +877,38 @@ async fn faulty_exchange(kind: &str, n: u64) -> Result<bool, String> {
     let all: Vec<(u64, HLCTimestamp)> = (1..=n).map(|i| (i, t_put)).collect();
     let _ = actor_a.send(MultiSet { source: 0, docs: docs_of(&all), ctx: None, _marker: PhantomData::<St> }).await;
     let _ = actor_a.send(Del { source: 0, doc: DocumentMetadata::new(1_000, t_del), _marker: PhantomData::<St> }).await;
+    let slow = kind.starts_with("slow");
     if kind == "write" {
         b.store.set_plan(Plan::Fail(vec![]));
-    } else {
+    } else if kind == "read" {
         *a.store.fail_read.lock() = Some("fetch");
+    } else {
+        *b.store.slow_put.lock() = Some((7_000, kind == "slow"));
     }
     let mut members = BTreeMap::new();
     members.insert(a.id, a.addr);
     let mut tracker = repair::Tracker::default();
-    for _ in 0..5 {
+    let mut first_round_end = std::time::Instant::now();
+    for round in 0..5 {
         repair::repair_round_tracked(&b.grp(), &b.network, &members, &mut tracker).await;
+        if round == 0 {
+            first_round_end = std::time::Instant::now();
+            if slow {
+                // what was left to run is given the time to finish (or to be refused)
+                let t0 = std::time::Instant::now();
+                while b.store.slow_released.lock().is_none() && t0.elapsed() < Duration::from_secs(30) {
+                    tokio::time::sleep(Duration::from_millis(50)).await;
+                }
+                tokio::time::sleep(Duration::from_millis(300)).await;
+            }
+        }
     }
-    let consumed = if kind == "write" { !matches!(*b.store.plan.lock(), Plan::Fail(_)) } else { a.store.fail_read.lock().is_none() };
+    let consumed = match kind {
+        "write" => !matches!(*b.store.plan.lock(), Plan::Fail(_)),
+        "read" => a.store.fail_read.lock().is_none(),
+        // the exchange was given up by the watcher: the round was over before the storage let go of the write
+        _ => matches!(*b.store.slow_released.lock(), Some(t) if first_round_end < t),
+    };
     b.store.set_plan(Plan::Ok);
     *a.store.fail_read.lock() = None;
     let mut ma: Vec<(u64, HLCTimestamp, bool)> = a.store.iter_metadata(&ks).await.unwrap().collect();
@@ -889,7 +917,12 @@ async fn faulty_exchange(kind: &str, n: u64) -> Result<bool, String> {
     mb.sort();
     if ma != mb {
         return Err(format!("after an exchange in which {} and four more rounds of the same poller, the receiving node lists {} entries, the sending node {}",
-                           if kind == "write" { "the receiver's storage refused one repair write" } else { "the sender's storage refused one read behind a fetch" },
+                           match kind {
+                               "write" => "the receiver's storage refused one repair write",
+                               "read" => "the sender's storage refused one read behind a fetch",
+                               "slow" => "the receiver's storage sat on one repair write for longer than the progress watcher waits and then refused it",
+                               _ => "the receiver's storage sat on one repair write for longer than the progress watcher waits",
+                           },
                            mb.len(), ma.len()));
     }
     Ok(consumed)
